@@ -384,6 +384,37 @@ def bulk_statement(rng):
     return 'select ' + cols + ' from t;' + ' select 2;'
 
 
+def long_token(rng):
+    """A short script in which ONE lexer token (string literal, quoted
+    name, comment, dollar-quoted body, number, word) is 3 000 - 70 000
+    characters long, around typical buffer sizes: per-token fast paths,
+    match windows and skip arithmetic only show on tokens of this size."""
+    n = rng.choice([4096, 8192, 16384, 32768, 65536]) \
+        + rng.randint(-1100, 1100)
+    unit = rng.choice(['x', 'ab ', 'é', "it''s ", 'a;b ', 'line\n', '0',
+                       '\U0001f600', 'select ', '-- '])
+    body = (unit * (n // len(unit) + 1))[:n]
+    x = rng.random()
+    if x < 0.3:
+        tok = "'" + body.replace("'", "''") + "'"
+    elif x < 0.4:
+        tok = '"' + body.replace('"', '') + '"'
+    elif x < 0.55:
+        tok = '/*' + body.replace('*/', '* ') + '*/'
+    elif x < 0.65:
+        tok = '-- ' + body.replace('\n', ' ') + '\n'
+    elif x < 0.8:
+        tok = '$q$' + body.replace('$', 'S') + '$q$'
+    elif x < 0.9:
+        tok = 'n' + ''.join(c for c in body if c.isalnum()) + '_'
+    else:
+        tok = '1' + '0' * n
+    pre = rng.choice(['select ', 'insert into t values (1, ', 'select a, ',
+                      'select 1; select ', ''])
+    post = rng.choice([' from t;', ') ;', ', b from t; select 2;', '', ';'])
+    return pre + tok + post
+
+
 MANY_UNITS = ['select 1', 'select a, b from t where c = 1',
               "insert into t values (1, 'x;y')", 'commit', 'begin',
               'update t set a = 1 where b = 2 /* c; */',
